@@ -77,8 +77,9 @@ func configs(thorough bool) []Config {
 	quickCombos = 0
 	if thorough {
 		add("2x2:blind(x);read2(x,y)|blind(y);read2(y,x)", -1, false, Script{blind(x), read2(x, y)}, Script{blind(y), read2(y, x)})
-		add("2x2:xfer(x,y);read2(x,y)|xfer(y,x);read2(y,x)", -1, true, Script{xfer(x, y), read2(x, y)}, Script{xfer(y, x), read2(y, x)})
-		add("2x2:rwr(x,y);inc(x)|rwr(y,x);inc(y)", -1, false, Script{rwr(x, y), inc(x)}, Script{rwr(y, x), inc(y)})
+		// the two largest two-section configurations are too large without a bound: preemption bound 4
+		add("2x2@pb4:xfer(x,y);read2(x,y)|xfer(y,x);read2(y,x)", 4, true, Script{xfer(x, y), read2(x, y)}, Script{xfer(y, x), read2(y, x)})
+		add("2x2@pb4:rwr(x,y);inc(x)|rwr(y,x);inc(y)", 4, false, Script{rwr(x, y), inc(x)}, Script{rwr(y, x), inc(y)})
 	}
 	// (3) three contexts, preemption bound 2 (thorough: then 3)
 	bounds := []int{2}
@@ -505,7 +506,23 @@ func TestCheck(t *testing.T) {
 			}
 			tasks = append(tasks, i)
 		}
-		sort.SliceStable(tasks, func(a, b int) bool { return weight(cfgs[tasks[a]]) > weight(cfgs[tasks[b]]) })
+		// largest first (load balance); the thorough tier keeps its own deadline of 25 min and runs the
+		// configurations that only it has last, so that a cap can only hit those
+		deadline := env.Deadline
+		if d := time.Now().Add(25 * time.Minute); env.Thorough() && d.Before(deadline) {
+			deadline = d
+		}
+		quickSet := map[string]bool{}
+		for _, c := range configs(false) {
+			quickSet[c.Name] = true
+		}
+		sort.SliceStable(tasks, func(a, b int) bool {
+			ca, cb := cfgs[tasks[a]], cfgs[tasks[b]]
+			if quickSet[ca.Name] != quickSet[cb.Name] {
+				return quickSet[ca.Name]
+			}
+			return weight(ca) > weight(cb)
+		})
 		var evals, points, diverg, leakedB int64
 		distinct, discards, capped, done, died := 0, 0, 0, 0, 0
 		exhaustive := true
@@ -516,7 +533,7 @@ func TestCheck(t *testing.T) {
 		byShape := map[string]int64{}
 		var slowest taskOut
 		sampled := map[string]bool{}
-		err := bubble.RunSharded(os.Getenv("VERIF_SELF"), "TestWorker", env.Workers, tasks, env.Deadline, nil, func(r bubble.TaskResult) {
+		err := bubble.RunSharded(os.Getenv("VERIF_SELF"), "TestWorker", env.Workers, tasks, deadline, nil, func(r bubble.TaskResult) {
 			cfg := cfgs[r.Task]
 			if r.JSON == nil {
 				died++
@@ -607,7 +624,7 @@ func TestCheck(t *testing.T) {
 			"leaked_bubbles":        leakedB,
 			"largest_configuration": map[string]any{"config": slowest.Cfg, "executions": slowest.Executions, "wall_s": slowest.WallS},
 			"shard_workers":         env.Workers,
-			"bounds":                "2 contexts x 1 section: all 91 pairs of 13 section shapes (<=4 accesses, both acquisition orders), unbounded preemptions; 2 contexts x 2 sections: 3 (thorough 6) configurations, unbounded; 3 contexts: 5 configurations at preemption bound 2 (thorough also 3); lock timeouts per variable in {1 ms, 50 ms}; 'timer fires first' may be chosen 2 (thorough 3) times per execution while another move is enabled and is forced whenever nothing else can move; after 3 (thorough 4) aborted attempts in one execution no further alternatives are explored (the execution is finished on the default schedule and still judged)",
+			"bounds":                "2 contexts x 1 section: all 91 pairs of 13 section shapes (<=4 accesses, both acquisition orders), unbounded preemptions; 2 contexts x 2 sections: 3 (thorough 4) configurations, unbounded, thorough also the 2 largest at preemption bound 4; 3 contexts: 5 configurations at preemption bound 2 (thorough also 3); lock timeouts per variable in {1 ms, 50 ms}; 'timer fires first' may be chosen 2 (thorough 3) times per execution while another move is enabled and is forced whenever nothing else can move; after 3 (thorough 4) aborted attempts in one execution no further alternatives are explored (the execution is finished on the default schedule and still judged)",
 		}
 		if env.Thorough() {
 			cov["race_pass"] = racePass(env)
